@@ -340,8 +340,9 @@ Proof.
     apply osend_sh; [exact Hc|exact H|]. intros r1 H1 L1.
     apply send_rx_list_sh; [exact Hc|exact H1|]. apply (bcast_valid_vi r r1); assumption.
   - (* SendHeartbeat(force) *)
-    rewrite shr_rn, shn_active, shn_devs, map_length.
-    destruct (is_active_node (rn r)); cbn [negb]; [|exact Nop].
+    rewrite shr_rn, shn_active, shn_open, shn_devs, map_length.
+    destruct (is_active_node (rn r)); cbn [negb orb]; [|exact Nop].
+    destruct (n_open (rn r) =? 3); cbn [negb]; [|exact Nop].
     apply send_heartbeat_api_sh; [exact Hc|exact H|lia|unfold dev_count; lia].
   - (* SendHeartbeat(iDev) *)
     rewrite shr_rn, shn_active.
